@@ -297,7 +297,12 @@ def runMonitor (prop : String) (cx : Ctx) : List Finding :=
   | "C01" => monitorC01 cx ++ (if cx.anyDisconnect then [] else monitorPanics cx "C01")
   | "C02" => monitorC02 cx ++
       -- a call that dies in the library's own assertions produced no executable list at all
-      (if cx.anyDisconnect then [] else monitorPanics cx "C02")
+      (if cx.anyDisconnect then [] else monitorPanics cx "C02") ++
+      -- executing the returned lists must keep the game on the session's timeline: if the game's
+      -- last simulation of a frame misses an input the session had received, some requests were
+      -- withheld from (or never issued to) the user
+      ((monitorC01 cx).filterMap fun f =>
+        if f.clause == "timeline" then some { f with prop := "C02", clause := "executed-timeline" } else none)
   | "C03" => monitorC03 cx
   | "C04" => monitorC04 cx ++
       -- the library's own window assertions firing is the same violation, seen from inside
